@@ -19,7 +19,27 @@ def big_tree(rng):
     return tree
 
 
+def prefix_siblings(rng):
+    """a folder with its own history beside entries whose names merely begin with that folder's name (A002 / A002_proxy /
+    A002.txt): which history a path belongs to is decided on whole path components, never on a string prefix"""
+    base = rng.choice(["A002", "Clips", "r", "d.1", "Reel 7"])
+    inner = {"c%d.mov" % k: {"f": "%02x%02x" % (k, rng.randrange(256))} for k in range(rng.choice([1, 2, 4]))}
+    if rng.random() < 0.5:
+        inner["sub"] = {"d": {"deep.bin": {"f": "0a0b"}, base: {"f": "77"}}}
+    tree = {base: {"d": inner},
+            base + rng.choice(["_proxy", " 2", "x", "-b"]): {"d": {"sub dir": {"d": {base + "C002.mp4": {"f": "010203"}}}, "p.bin": {"f": "99"}}},
+            base + rng.choice([".txt", ".", "~"]): {"f": "5a5a"},
+            base[:-1] if len(base) > 1 else "q": {"f": "31"}}
+    steps = [{"op": "create", "fmts": gen.gen_fmts(rng), "root": base}]
+    if rng.random() < 0.5:
+        steps.append({"op": "create", "fmts": gen.gen_fmts(rng), "root": base + "/sub"} if "sub" in inner else {"op": "verify"})
+    steps += [{"op": "create", "fmts": gen.gen_fmts(rng)}, {"op": "verify"}, {"op": "create", "fmts": gen.gen_fmts(rng)}, {"op": "diff"}]
+    return {"tree": tree, "steps": steps}
+
+
 def scenario(rng, i):
+    if i % 10 == 4:
+        return prefix_siblings(rng)
     if i % 20 == 7:
         tree = big_tree(rng)
         steps = [{"op": "create", "fmts": gen.gen_fmts(rng)}, {"op": "verify"}]
@@ -31,7 +51,7 @@ def scenario(rng, i):
     return gen.gen_history_scenario(rng, n_steps=rng.choice([3, 5, 7]), patterns=pats)
 
 
-RULE = ("random trees (0-14 entries; one in twenty with 100-400 entries in one generation, depth <= 4, empty files/dirs, names with spaces, non-ASCII, XML-special, glob characters, U+2028), "
+RULE = ("random trees (0-14 entries; one in twenty with 100-400 entries in one generation, one in ten with a nested history beside entries whose names start with its folder's name, depth <= 4, empty files/dirs, names with spaces, non-ASCII, XML-special, glob characters, U+2028), "
         "prior histories from earlier create runs (root, nested, -sf, -n, patterns), then create; every scenario runs on the real tool and on the "
         "extracted model; oracle: records == os-independent walk of the abstract tree filtered by pathspec on root-relative paths, path form, "
         "digests recomputed. A scenario is non-trivial when at least one create wrote a generation with records.")
